@@ -149,7 +149,9 @@ func (n *Property) Unmarshall(configValue any) error {
 		if err != nil {
 			return errors.Wrapf(err, "create mapstructure decoder error")
 		}
-		err = decoder.Decode(configValue)
+		// maps and lists that reach an interface-typed position are assigned as they are: decode a private copy, so
+		// that a bound value shares no storage with the configuration or with another bound value
+		err = decoder.Decode(cloneConfigValue(configValue))
 		if err != nil {
 			return errors.Wrapf(err, "mapstructure decode %+v", configValue)
 		}
@@ -159,6 +161,40 @@ func (n *Property) Unmarshall(configValue any) error {
 		return errors.Wrap(err, "unmarshall property configuration failed")
 	}
 	return nil
+}
+
+// cloneConfigValue copies the maps and lists of a dynamically typed configuration value, to any depth
+func cloneConfigValue(v any) any {
+	switch t := v.(type) {
+	case map[string]any:
+		if t == nil {
+			return v
+		}
+		c := make(map[string]any, len(t))
+		for k, e := range t {
+			c[k] = cloneConfigValue(e)
+		}
+		return c
+	case map[any]any:
+		if t == nil {
+			return v
+		}
+		c := make(map[any]any, len(t))
+		for k, e := range t {
+			c[k] = cloneConfigValue(e)
+		}
+		return c
+	case []any:
+		if t == nil {
+			return v
+		}
+		c := make([]any, len(t))
+		for i, e := range t {
+			c[i] = cloneConfigValue(e)
+		}
+		return c
+	}
+	return v
 }
 
 func newDecodeConfig(v any, hooks []mapstructure.DecodeHookFunc) *mapstructure.DecoderConfig {
